@@ -152,7 +152,8 @@ func (r *NetconfResponse) checkFailed(b []byte) {
 func (r *NetconfResponse) record1dot0() {
 	b := r.RawResult
 
-	b = bytes.TrimPrefix(b, []byte(xmlHeader))
+	// a line feed sent after the previous message's delimiter travels in front of this message
+	b = bytes.TrimPrefix(bytes.TrimSpace(b), []byte(xmlHeader))
 	// trim space before trimming suffix because we usually have a trailing newline!
 	b = bytes.TrimSuffix(bytes.TrimSpace(b), []byte(v1Dot0Delim))
 
